@@ -7,8 +7,8 @@ from ..gen import validity as G
 
 TIERS = {
     # L: exhaustive string length for init_min<=1 tuples; Li: for init-phase tuples
-    "quick": {"shards": 16, "budget_s": 25, "L": 9, "Li": 7, "max_len_init": 4, "random": 2500, "max_frames": 300},
-    "thorough": {"shards": 16, "budget_s": 420, "L": 12, "Li": 10, "max_len_init": 5, "random": 120000, "max_frames": 2000},
+    "quick": {"shards": 16, "budget_s": 120, "L": 9, "Li": 7, "max_len_init": 4, "random": 2500, "max_frames": 300},
+    "thorough": {"shards": 16, "budget_s": 900, "L": 12, "Li": 10, "max_len_init": 5, "random": 120000, "max_frames": 2000},
 }
 
 
